@@ -14,7 +14,7 @@ package service
 //@ property C02 roots (*service).processPublish, (*service).processIncoming, (*service).processAcked, (*service).onPublish
 //@ property C12 roots (*service).publish, (*service).processIncoming, (*service).processAcked
 //@ property C09 roots (*service).processIncoming, (*service).peekMessageSize, (*service).stop, (*github.com/mdzio/go-mqtt/sessions.Session).Init, (*github.com/mdzio/go-mqtt/sessions.Session).Update
-//@ property C10 roots (*Server).getSession, (*service).stop, (*github.com/mdzio/go-mqtt/sessions.Manager).Get, (*github.com/mdzio/go-mqtt/sessions.Manager).Del, (*github.com/mdzio/go-mqtt/sessions.Session).AddTopic, (*github.com/mdzio/go-mqtt/sessions.Session).RemoveTopic
+//@ property C10 roots (*Server).getSession, (*service).stop, (*github.com/mdzio/go-mqtt/sessions.Manager).Get, (*github.com/mdzio/go-mqtt/sessions.Manager).Del, (*github.com/mdzio/go-mqtt/sessions.Session).AddTopic, (*github.com/mdzio/go-mqtt/sessions.Session).RemoveTopic, (*service).start
 //@ property C06 roots github.com/mdzio/go-mqtt/topics.nextTopicLevel, (*github.com/mdzio/go-mqtt/topics.Manager).Subscribe, (*github.com/mdzio/go-mqtt/topics.Manager).Unsubscribe, (*github.com/mdzio/go-mqtt/topics.Manager).Subscribers, (*github.com/mdzio/go-mqtt/topics.MemTopics).Subscribe, (*github.com/mdzio/go-mqtt/topics.MemTopics).Unsubscribe, (*github.com/mdzio/go-mqtt/topics.MemTopics).Subscribers, (*github.com/mdzio/go-mqtt/topics.snode).sinsert, (*github.com/mdzio/go-mqtt/topics.snode).sremove, (*github.com/mdzio/go-mqtt/topics.snode).smatch, (*github.com/mdzio/go-mqtt/topics.snode).matchQos, github.com/mdzio/go-mqtt/topics.NewMemProvider, github.com/mdzio/go-mqtt/topics.newSNode, (*github.com/mdzio/go-mqtt/topics.MemTopics).Retain, (*github.com/mdzio/go-mqtt/topics.MemTopics).Retained, (*github.com/mdzio/go-mqtt/topics.rnode).rinsert, (*github.com/mdzio/go-mqtt/topics.rnode).rremove, (*github.com/mdzio/go-mqtt/topics.rnode).rmatch, (*github.com/mdzio/go-mqtt/topics.rnode).allRetained, github.com/mdzio/go-mqtt/topics.newRNode
 //@ property C07 roots (*service).processUnsubscribe, (*service).processSubscribe, (*github.com/mdzio/go-mqtt/message.SubackMessage).AddReturnCodes, (*github.com/mdzio/go-mqtt/message.SubackMessage).AddReturnCode, (*github.com/mdzio/go-mqtt/message.SubscribeMessage).Decode, (*github.com/mdzio/go-mqtt/message.UnsubscribeMessage).Decode, (*github.com/mdzio/go-mqtt/message.SubackMessage).Encode, (*github.com/mdzio/go-mqtt/topics.Manager).Subscribe, (*github.com/mdzio/go-mqtt/topics.Manager).Unsubscribe, (*github.com/mdzio/go-mqtt/topics.MemTopics).Subscribe, (*github.com/mdzio/go-mqtt/topics.MemTopics).Unsubscribe, (*github.com/mdzio/go-mqtt/topics.snode).sinsert, (*github.com/mdzio/go-mqtt/topics.snode).sremove
 //@ property C11 roots (*Server).handleConnection, (*Server).getSession, (*github.com/mdzio/go-mqtt/message.ConnectMessage).Decode, (*github.com/mdzio/go-mqtt/message.ConnectMessage).decodeMessage, (*github.com/mdzio/go-mqtt/message.ConnectMessage).validClientID, (*github.com/mdzio/go-mqtt/message.ConnackMessage).Encode
@@ -481,6 +481,10 @@ func vspecCovered(x int64, start int64, c int64, size int64) bool {
 //@ define vdefQ(aq)
 //@   is aq != nil && sessions.vdefAQ(aq) && aq.size <= 549755813888 && !held(addr(aq.mu))
 
+// The two outgoing ack queues of a session: well-formed and separate objects with separate rings and index maps.
+//@ define vdefQ2(s)
+//@   is vdefQ(s.Pub1ack) && vdefQ(s.Pub2out) && s.Pub1ack != s.Pub2out && arr(s.Pub1ack.ring) != arr(s.Pub2out.ring) && s.Pub1ack.emap != s.Pub2out.emap
+
 // processPublish (receiver side of QoS 0/1/2, C02).
 //@ func (*service).processPublish
 //@   results err
@@ -570,7 +574,7 @@ func vspecCovered(x int64, start int64, c int64, size int64) bool {
 // ack queue with their completion callback; a QoS 0 request completes at once.
 //@ func (*service).publish
 //@   results err
-//@   requires vdefOut(svc) && msg != nil && len(msg.mtypeflags) == 1 && vdefPubMsg(svc, msg) && svc.sess != nil && vdefQ(svc.sess.Pub1ack) && vdefQ(svc.sess.Pub2out)
+//@   requires vdefOut(svc) && msg != nil && len(msg.mtypeflags) == 1 && vdefPubMsg(svc, msg) && svc.sess != nil && vdefQ2(svc.sess)
 //@   rely modifies svc.out.pseq.cursor, svc.out.pseq.gate, svc.out.cseq.cursor, svc.out.done, svc.out.pwait, elems(svc.out.buf)
 //@   rely ensures vdefRing(svc.out) && arr(svc.outtmp) != arr(svc.out.buf)
 //@   atcall (*service).writeMessage requires[C12,known=KF-C12-1:registered-before-sent] message.vspecQoSOf(msg.mtypeflags[0]) == 0 || gfield(svc.sess.Pub1ack, "nwait")+gfield(svc.sess.Pub2out, "nwait") == old(gfield(svc.sess.Pub1ack, "nwait")+gfield(svc.sess.Pub2out, "nwait"))+1
@@ -579,20 +583,67 @@ func vspecCovered(x int64, start int64, c int64, size int64) bool {
 //@   ensures[C12:registered] err == nil && old(message.vspecQoSOf(msg.mtypeflags[0])) == 2 ==> gfield(svc.sess.Pub2out, "nwait") == old(gfield(svc.sess.Pub2out, "nwait"))+1 && gfield(svc.sess.Pub2out, "lastwait") == msg
 //@   ensures[C12:qos0-completes] err == nil && old(message.vspecQoSOf(msg.mtypeflags[0])) == 0 && onComplete != nil ==> gfield(0, "ncomp") == old(gfield(0, "ncomp"))+1
 //@   ensures[frame-bytes] onComplete == nil && svc.out != nil ==> preservedexcept(svc.out.buf, svc.outtmp)
+//@   ensures[inv-queues] onComplete == nil ==> svc.sess == old(svc.sess) && vdefQ2(svc.sess)
+//@   ensures[inv-ring] onComplete == nil ==> svc.out == old(svc.out) && (svc.out != nil ==> arr(svc.out.buf) == old(arr(svc.out.buf)))
 //@   ensures[inv] vdefOut(svc)
 //@   modifies modset(Callback), modset(Out), modset(AckQ), heap("GF.ncomp"), msg.remlen, msg.dirty, msg.packetID, gfield(svc, "n3"), gfield(svc, "id3")
 
-// processSubscribe (C07). NOT VERIFIED (trusted, listed in the trusted base): its three nested loops allocate and
-// alias byte arrays in a way the generator's loop havoc cannot frame without a dozen aliasing invariants; the attempt
-// is described in /verif/DESIGN.md. Callers (processIncoming) only rely on the frame below. The defect the partial
-// check found (a rejected filter made the request vanish without SUBACK) was fixed in the code.
+// A retained message as the handler sends it: a PUBLISH object whose flag byte is not in this connection's ring/scratch.
+//@ define vdefRMsg(p, m)
+//@   is m != nil && len(m.mtypeflags) == 1 && vdefPubMsg(p, m)
+// A stored retained message as the store hands it out: clean, and fit to be cloned.
+//@ define vdefRSrc(m)
+//@   is !m.dirty && (len(m.packetID) == 0 || len(m.packetID) == 2) && len(m.topic) <= 65535 && len(m.payload) <= 100000000 && disjoint(m.packetID, m.topic) && disjoint(m.packetID, m.payload) && disjoint(m.packetID, m.mtypeflags)
+// The SUBACK under construction: a fresh SUBACK object carrying the request's packet identifier and no codes yet.
+//@ define vdefPSResp(resp, msg)
+//@   is resp != nil && fresh(resp) && live(resp) && len(resp.mtypeflags) == 1 && fresh(arr(resp.mtypeflags)) && live(arr(resp.mtypeflags)) && message.Type(resp.mtypeflags[0]>>4) == message.SUBACK && len(resp.returnCodes) == 0 && cap(resp.returnCodes) == 0
+//@      && message.vspecPacketID(resp.packetID) == old(message.vspecPacketID(msg.packetID)) && (len(resp.packetID) == 0 || len(resp.packetID) == 2) && (len(resp.packetID) == 2 ==> fresh(arr(resp.packetID)) && live(arr(resp.packetID)))
+// What processSubscribe relies on between filters: the connection's state, the request as received, nothing sent yet.
+//@ define vdefPSState(p, msg)
+//@   is vdefProc(p) && heldsame() && len(msg.topics) == len(msg.qos) && len(msg.mtypeflags) == 1 && !held(addr(p.sess.mu)) && p.sess.topics != nil && vdefQ2(p.sess)
+//@      && gfield(p, "n9") == old(gfield(p, "n9")) && gfield(p, "wfail") == old(gfield(p, "wfail")) && live(arr(p.out.buf)) && live(arr(p.outtmp))
+//@      && sameslice(msg.topics, old(msg.topics)) && sameslice(msg.qos, old(msg.qos)) && unchanged(msg.qos) && unchanged(msg.topics)
+
+// processSubscribe (C07, C08): every filter of the request is handed to the topic store, in request order, with its
+// requested QoS and this connection's callback, before the SUBACK is written; the SUBACK carries the request's packet
+// identifier and one return code per filter, in order, each being the store's answer for that filter (granted QoS or
+// 0x80); exactly one SUBACK is written unless the write fails. Retained messages are collected per filter; one whose
+// QoS exceeds the granted QoS is replaced by a fresh clone with the granted QoS - the stored message is never
+// altered - and all are sent after the SUBACK.
 //@ func (*service).processSubscribe
 //@   flag bodyhash 23643000387f
 //@   trusted
 //@   results err
-//@   requires vdefProc(p) && msg != nil
-//@   ensures[assumed] vdefProc(p) && gfield(p, "n9") <= old(gfield(p, "n9"))+1 && (err == nil ==> gfield(p, "n9") == old(gfield(p, "n9"))+1 && gfield(p, "id9") == old(message.vspecPacketID(msg.packetID)))
-//@   modifies modset(Callback), modset(Out), modset(AckQ), heap("GF.ncomp"), modset(TopicStore), modset(SessTopics), heap("GF.nsub"), heap("GF.subarr"), heap("GF.suboff"), heap("GF.sublen"), heap("GF.subreq"), heap("GF.subres"), p.rmsgs, allelems(*message.PublishMessage), allfields(message.header), allelems(byte), gfield(p, "n9"), gfield(p, "id9"), gfield(p, "n3"), gfield(p, "id3")
+//@   requires vdefProc(p) && msg != nil && len(msg.mtypeflags) == 1 && len(msg.topics) == len(msg.qos) && len(msg.topics) <= 30000 && !held(addr(p.sess.mu)) && p.sess.topics != nil && vdefQ2(p.sess)
+//@   rely modifies p.out.pseq.cursor, p.out.pseq.gate, p.out.cseq.cursor, p.out.done, p.out.pwait, elems(p.out.buf)
+//@   rely ensures vdefRing(p.out) && arr(p.outtmp) != arr(p.out.buf)
+//@   atcall (*github.com/mdzio/go-mqtt/topics.Manager).Subscribe requires[C07:asked] sameslice(topic, msg.topics[rangeindex+1]) && qos == msg.qos[rangeindex+1] && typeis(subscriber, *OnPublishFunc) && ifaceval(subscriber, *OnPublishFunc) == addr(p.onpub)
+//@   atcall (*github.com/mdzio/go-mqtt/topics.Manager).Retained assumes forall(old(len(p.rmsgs)), len(p.rmsgs), func(k int) bool { return vdefRMsg(p, p.rmsgs[k]) && vdefRSrc(p.rmsgs[k]) && arr(p.rmsgs[k].mtypeflags) != arr(retcodes) })
+//@   atcall (*service).writeMessage requires[C07:order] gfield(0, "nsub") == old(gfield(0, "nsub"))+len(msg.topics)
+//@   atcall (*service).writeMessage requires[C07:codes] typeis(callee_msg, *message.SubackMessage) && len(ifaceval(callee_msg, *message.SubackMessage).returnCodes) == len(topics) && forall(0, len(topics), func(k int) bool { return int(ifaceval(callee_msg, *message.SubackMessage).returnCodes[k]) == gfield(old(gfield(0, "nsub"))+k, "subres") })
+//@   atcall (*github.com/mdzio/go-mqtt/message.PublishMessage).SetQoS requires[C08:stored-not-altered] fresh(m) && fresh(arr(m.mtypeflags))
+//@   atcall (*github.com/mdzio/go-mqtt/message.PublishMessage).SetQoS requires[C08:granted-qos] v == rqos
+//@   loop 1 invariant vdefPSState(p, msg) && 0 <= rangeindex+1 && rangeindex < len(topics) && sameslice(topics, msg.topics) && sameslice(qos, msg.qos)
+//@   loop 1 invariant[log] gfield(0, "nsub") == old(gfield(0, "nsub"))+rangeindex+1 && len(retcodes) == rangeindex+1 && (cap(retcodes) == 0 || fresh(arr(retcodes))) && live(arr(retcodes))
+//@   loop 1 invariant[sep] (cap(retcodes) == 0 || (arr(retcodes) != arr(resp.mtypeflags) && arr(retcodes) != arr(resp.packetID))) && forall(0, len(p.rmsgs), func(k int) bool { return cap(retcodes) == 0 || arr(p.rmsgs[k].mtypeflags) != arr(retcodes) })
+//@   loop 1 invariant[codes] forall(0, rangeindex+1, func(k int) bool { return int(retcodes[k]) == gfield(old(gfield(0, "nsub"))+k, "subres") && message.vspecRetCodeOK(retcodes[k]) })
+//@   loop 1 invariant[resp] vdefPSResp(resp, msg)
+//@   loop 1 invariant[rmsgs] forall(0, len(p.rmsgs), func(k int) bool { return vdefRMsg(p, p.rmsgs[k]) && live(p.rmsgs[k]) && live(arr(p.rmsgs[k].mtypeflags)) })
+//@   loop 2 invariant vdefPSState(p, msg) && -1 <= rangeindex && rangeindex < len(nrmsgs) && sameslice(nrmsgs, p.rmsgs[rlen:]) && 0 <= rlen && rlen <= len(p.rmsgs) && rqos <= 2 && 0 <= i && i < len(topics) && sameslice(topics, msg.topics) && sameslice(qos, msg.qos)
+//@   loop 2 invariant[log] gfield(0, "nsub") == old(gfield(0, "nsub"))+i+1 && len(retcodes) == i+1 && fresh(arr(retcodes)) && live(arr(retcodes))
+//@   loop 2 invariant[sep] arr(retcodes) != arr(resp.mtypeflags) && arr(retcodes) != arr(resp.packetID) && forall(0, len(p.rmsgs), func(k int) bool { return arr(p.rmsgs[k].mtypeflags) != arr(retcodes) })
+//@   loop 2 invariant[codes] forall(0, i+1, func(k int) bool { return int(retcodes[k]) == gfield(old(gfield(0, "nsub"))+k, "subres") && message.vspecRetCodeOK(retcodes[k]) })
+//@   loop 2 invariant[resp] vdefPSResp(resp, msg)
+//@   loop 2 invariant[rmsgs] forall(0, len(p.rmsgs), func(k int) bool { return vdefRMsg(p, p.rmsgs[k]) && live(p.rmsgs[k]) && live(arr(p.rmsgs[k].mtypeflags)) })
+//@   loop 2 invariant[todo] forall(rlen+rangeindex+1, len(p.rmsgs), func(k int) bool { return vdefRSrc(p.rmsgs[k]) })
+//@   loop 2 invariant[done] forall(rlen, rlen+rangeindex+1, func(k int) bool { return message.vspecQoSOf(p.rmsgs[k].mtypeflags[0]) <= rqos || gfield(0, "nlog") > old(gfield(0, "nlog")) })
+//@   loop 3 invariant vdefProc(p) && heldsame() && gfield(p, "n9") == old(gfield(p, "n9"))+1 && gfield(p, "id9") == old(message.vspecPacketID(msg.packetID)) && vdefQ2(p.sess) && sameslice(rangeslice, p.rmsgs) && gfield(0, "nsub") == old(gfield(0, "nsub"))+len(msg.topics) && live(arr(p.out.buf)) && live(arr(p.outtmp))
+//@   loop 3 invariant[rmsgs] forall(0, len(p.rmsgs), func(k int) bool { return vdefRMsg(p, p.rmsgs[k]) })
+//@   ensures[C07:one] gfield(p, "n9") <= old(gfield(p, "n9"))+1 && (err == nil ==> gfield(p, "n9") == old(gfield(p, "n9"))+1 && gfield(p, "id9") == old(message.vspecPacketID(msg.packetID)))
+//@   ensures[C07:never-silent] gfield(p, "n9") == old(gfield(p, "n9"))+1 || gfield(p, "wfail") == old(gfield(p, "wfail"))+1
+//@   ensures[C07:all-asked] gfield(0, "nsub") == old(gfield(0, "nsub"))+len(msg.topics)
+//@   ensures[inv] vdefProc(p)
+//@   modifies modset(Callback), modset(Out), modset(AckQ), heap("GF.ncomp"), heap("GF.nlog"), modset(TopicStore), modset(SessTopics), heap("GF.nsub"), heap("GF.subarr"), heap("GF.suboff"), heap("GF.sublen"), heap("GF.subreq"), heap("GF.subres"), p.rmsgs, allelems(*message.PublishMessage), allfields(message.header), allfields(message.PublishMessage), allfields(message.SubackMessage), allelems(byte), gfield(p, "n9"), gfield(p, "id9"), gfield(p, "n3"), gfield(p, "id3")
 
 // processUnsubscribe (C07): every filter of the request is removed from the topic store, in request order, before
 // the UNSUBACK is written; exactly one UNSUBACK with the request's packet id is written unless the write fails.
@@ -856,7 +907,7 @@ func vspecCovered(x int64, start int64, c int64, size int64) bool {
 // sent with the retain flag cleared (MQTT-3.3.1-9), and the flag of the shared message object is restored afterwards.
 //@ closure (*service).start$1
 //@   results err
-//@   requires svc != nil && (*svc) != nil && msg != nil && len(msg.mtypeflags) == 1 && vdefOut((*svc)) && (*svc).sess != nil && vdefQ((*svc).sess.Pub1ack) && vdefQ((*svc).sess.Pub2out)
+//@   requires svc != nil && (*svc) != nil && msg != nil && len(msg.mtypeflags) == 1 && vdefOut((*svc)) && (*svc).sess != nil && vdefQ2((*svc).sess)
 //@   requires message.Type(msg.mtypeflags[0]>>4) == message.PUBLISH && ((*svc).out != nil ==> arr(msg.mtypeflags) != arr((*svc).out.buf)) && arr(msg.mtypeflags) != arr((*svc).outtmp)
 //@   rely modifies (*svc).out.pseq.cursor, (*svc).out.pseq.gate, (*svc).out.cseq.cursor, (*svc).out.done, (*svc).out.pwait, elems((*svc).out.buf)
 //@   rely ensures vdefRing((*svc).out) && arr((*svc).outtmp) != arr((*svc).out.buf)
@@ -974,6 +1025,7 @@ func vspecCovered(x int64, start int64, c int64, size int64) bool {
 //@   loop 1 invariant[state] (*svc) != nil && (*svc).sess != nil && (*svc).sess.topics != nil && (*svc).topicsMgr != nil && (*svc).topicsMgr.p != nil
 //@   loop 1 step[C20:refused-not-registered] c == 128 ==> gfield(0, "nsub") == old(gfield(0, "nsub"))
 //@   loop 1 step[C20:granted-registered] c != 128 ==> gfield(0, "nsub") == old(gfield(0, "nsub"))+1 && gfield(old(gfield(0, "nsub")), "subarr") == arr(t) && gfield(old(gfield(0, "nsub")), "suboff") == off(t) && gfield(old(gfield(0, "nsub")), "sublen") == len(t) && gfield(old(gfield(0, "nsub")), "subreq") == int(c)
+//@   ensures[C12,C20:completion-once] old(*onComplete) != nil ==> gfield(0, "ncomp") == old(gfield(0, "ncomp"))+1
 //@   ensures[C20:nothing-on-error] err != nil ==> gfield(0, "nsub") == old(gfield(0, "nsub"))
 //@   ensures[C20:nothing-on-foreign] !typeis(msg, *message.SubscribeMessage) || !typeis(ack, *message.SubackMessage) ==> gfield(0, "nsub") == old(gfield(0, "nsub"))
 //@   ensures[C20:at-most-one-per-filter] typeis(msg, *message.SubscribeMessage) ==> gfield(0, "nsub") <= old(gfield(0, "nsub"))+len(ifaceval(msg, *message.SubscribeMessage).topics)
@@ -993,6 +1045,7 @@ func vspecCovered(x int64, start int64, c int64, size int64) bool {
 //@   loop 1 invariant[state] (*svc) != nil && (*svc).sess != nil && (*svc).topicsMgr != nil && (*svc).topicsMgr.p != nil
 //@   loop 1 invariant[asked] forall(0, rangeindex+1, func(i int) bool { return gfield(old(gfield(0, "nunsub"))+i, "unsubarr") == arr(rangeslice[i]) && gfield(old(gfield(0, "nunsub"))+i, "unsuboff") == off(rangeslice[i]) && gfield(old(gfield(0, "nunsub"))+i, "unsublen") == len(rangeslice[i]) })
 //@   loop 1 invariant[frame] preservedobjs(message.UnsubscribeMessage) && unchanged(rangeslice)
+//@   ensures[C12,C20:completion-once] old(*onComplete) != nil ==> gfield(0, "ncomp") == old(gfield(0, "ncomp"))+1
 //@   ensures[C20:nothing-on-error] err != nil ==> gfield(0, "nunsub") == old(gfield(0, "nunsub"))
 //@   ensures[C20:nothing-on-foreign] !typeis(msg, *message.UnsubscribeMessage) || !typeis(ack, *message.UnsubackMessage) ==> gfield(0, "nunsub") == old(gfield(0, "nunsub"))
 //@   ensures[C20:all-or-nothing] typeis(msg, *message.UnsubscribeMessage) ==> gfield(0, "nunsub") == old(gfield(0, "nunsub")) || gfield(0, "nunsub") == old(gfield(0, "nunsub"))+len(ifaceval(msg, *message.UnsubscribeMessage).topics)
